@@ -231,7 +231,14 @@ pub fn generate(a: &Args) {
         if i % 5 == 3 { let r = rng.below(rows.len()); rows[r].truncate(1); }
         if i % 17 == 11 { let r = rng.below(rows.len()); rows[r].clear(); }
         let span = [2i64, 5, 9, 40][i % 4];
-        let llrs: Vec<f64> = (0..n).map(|_| rng.range(-span, span) as f64).collect();
+        // integers, quarters (the quantiser rounds them; tiny positive values become the working value 0), and all-positive
+        // small quarters (the all-zero word is a codeword: the zero-iteration exit must be taken on the CHANNEL signs)
+        let draw = |rng: &mut Rng, cls: usize| -> Vec<f64> { match cls % 6 {
+            0 | 3 => (0..n).map(|_| rng.range(-span, span) as f64).collect(),
+            2 => (0..n).map(|_| *rng.pick(&[1i64, 1, 2, 3, 5, 8, 40]) as f64 / 4.0).collect(),
+            _ => (0..n).map(|_| rng.range(-4 * span, 4 * span) as f64 / 4.0).collect(),
+        } };
+        let llrs: Vec<f64> = draw(&mut rng, i);
         let limit = [0usize, 1, 2, 3, 4, 6, 10][i % 7];
         // ONE decoder object per schedule for a short history of calls (objects are long-lived in real use);
         // every call is judged against the textbook result on its own arguments
@@ -242,13 +249,13 @@ pub fn generate(a: &Args) {
             let mut hl = guarded(|| horizontal_layered::Decoder::new(matrix(&rows, n), IntMinSum)).ok();
             let mut rng2 = Rng::new(rng.next());
             for cidx in 0..calls {
-                let llrs: Vec<f64> = if cidx == 0 { llrs.clone() } else { (0..n).map(|_| rng2.range(-span, span) as f64).collect() };
+                let llrs: Vec<f64> = if cidx == 0 { llrs.clone() } else { draw(&mut rng2, i + cidx) };
                 let limit = if cidx == 0 { limit } else { [0usize, 1, 2, 3, 4, 6, 10][(i + cidx) % 7] };
                 out.new_case();
                 let res = guarded(|| {
                     if layered { hl.as_mut().expect("ctor").decode(&llrs, limit) } else { fl.as_mut().expect("ctor").decode(&llrs, limit) }
                 });
-                let li: Vec<i64> = llrs.iter().map(|&x| x as i64).collect();
+                let li: Vec<i64> = llrs.iter().map(|&x| (4.0 * x).round() as i64).collect();   // quarters
                 match res {
                     Ok(r) => {
                         let rj = result_json(&r);
